@@ -31,15 +31,16 @@ Proof. exact swap4_involutive. Qed.
 Print Assumptions swap_involutive.
 
 (* A whole file prefix (signature, offset incl. the 64-bit escape, stamp, padding, data) reads back,
-   and the byte-swapped file reads to the same offset and the same data. *)
+   and the byte-swapped file reads to the same offset and the same data. The bound on the header offset
+   (INT64_MAX/4 words, i.e. a file below 2^63 bytes) is the range test the repaired reader makes. *)
 Theorem prefix_roundtrip : forall ncol nrefl d rest,
-  0 <= ncol -> 0 <= nrefl -> hdr_off ncol nrefl < 2 ^ 63 -> Z.of_nat (length d) = ncol * nrefl ->
+  0 <= ncol -> 0 <= nrefl -> hdr_off ncol nrefl <= HDR_OFF_MAX -> Z.of_nat (length d) = ncol * nrefl ->
   read_prefix (file_prefix ncol nrefl d ++ rest) = Some (hdr_off ncol nrefl, d, rest).
 Proof. exact read_prefix_native. Qed.
 Print Assumptions prefix_roundtrip.
 
 Theorem swapped_file_reads_same : forall ncol nrefl d rest,
-  0 <= ncol -> 0 <= nrefl -> hdr_off ncol nrefl < 2 ^ 63 -> Z.of_nat (length d) = ncol * nrefl ->
+  0 <= ncol -> 0 <= nrefl -> hdr_off ncol nrefl <= HDR_OFF_MAX -> Z.of_nat (length d) = ncol * nrefl ->
   read_prefix (file_prefix_swapped ncol nrefl d ++ rest) = Some (hdr_off ncol nrefl, d, rest).
 Proof. exact read_prefix_swapped. Qed.
 Print Assumptions swapped_file_reads_same.
@@ -79,3 +80,9 @@ Theorem int_field_roundtrip : forall w n r, is_digit (cur r) = false -> simple_a
 Proof. exact atoi_fmt_d. Qed.
 Print Assumptions int_field_roundtrip.
 
+(* every header offset the repaired reader accepts - from ANY 20 bytes - converts to a word count and to a byte
+   position without leaving int64 (the snapshot computed 4*(offset-1) and offset-21 unchecked) *)
+Theorem reader_offset_arithmetic_safe : forall b same off, read_first b = Some (same, off) ->
+  21 <= off /\ 0 <= off - 1 - 20 /\ 4 * (off - 1) < 2 ^ 63 /\ 4 * (off - 1 - 20) < 2 ^ 63.
+Proof. exact read_first_offset_range. Qed.
+Print Assumptions reader_offset_arithmetic_safe.
